@@ -93,10 +93,10 @@ def _take_of_bounced(facts, s):
 
 def _host_guard(facts, s):
     # set_host_header closure: `uri.host().expect(..)` inside or_insert_with, reached only when uri.authority()/host() is Some
-    f = facts.fn("service::host::set_host_header")
-    sites = f.calls("http::header::Entry::or_insert_with", "http::header::map::Entry::or_insert_with")
+    f = facts.unit(facts.fn("service::host::set_host_header"), expand=True)
+    sites = [c for c in f.calls() if c.matches(r"VacantEntry.*::(insert|insert_entry|try_insert)$|Entry.*::or_insert_with$")]
     if not sites:
-        return False, "or_insert_with not found in set_host_header"
+        return False, "no insertion into the Host entry found in set_host_header"
     for c in sites:
         ok, w = f.guarded(c.bb, lambda lab: (lab.kind == "variant" and lab.variants == {"Some"}) or
                           (lab.kind == "bool" and lab.cond.kind == "call" and lab.cond.site.matches(r"Option.*::is_(none|some)$") and
